@@ -142,6 +142,13 @@ func (g *gen) ctxID() tree.ID {
 func genCase(t *rapid.T) Case {
 	g := &gen{t}
 	p1 := xp.PathE(g.mainPath())
+	if g.pick(6, "emptyll") == 0 {
+		// the path designates a leaf-list that holds nothing (a node named "le": the free tree answers with a value set
+		// without members), whose string-value is empty and which equals nothing
+		le := g.mainPath()
+		le.Steps = append(le.Steps, xp.Step{Kind: "name", Name: "le"})
+		p1 = xp.PathE(le)
+	}
 	var e *xp.E
 	switch g.pick(10, "context") {
 	case 0, 1:
